@@ -317,7 +317,7 @@ def value_of(v):
     return np.asarray(v)
 
 
-def run(prog, x, guard=False, log=None):
+def run(prog, x, guard=False, log=None, before=None):
     """Execute the instruction list on x (ndarray, UTPM or Function).  Returns (output, regs).
     guard=True (ndarray runs): raise OutOfDomain when a template's domain guard fails."""
     regs = {}
@@ -330,6 +330,8 @@ def run(prog, x, guard=False, log=None):
     out = None
     for k, (tn, refs) in enumerate(prog):
         t = TEMPLATES[tn]
+        if before is not None:
+            before(k, regs)
         args = [get(r) for r in refs]
         if guard and t.dom is not None:
             vals = [value_of(a) for a in args]
@@ -488,6 +490,8 @@ def mutable_after(prog):
             mut.add('r%d' % k)
         if t.mut and refs[0] in mut:
             mut.add('r%d' % k)
+        if 'view' in t.tags and refs[0] in mut:
+            mut.add('r%d' % k)          # writing through a view of a buffer is allowed
     return mut
 
 
@@ -556,6 +560,12 @@ SCENARIOS = {
              ['sum(V,None)', ['r7']]],
     'view1': [['mul(A,A)', ['V0', 'V1']], ['V[::-1]', ['r0']], ['mul(A,A)', ['r1', 'r0']], ['sin(A)', ['r2']],
               ['add(A,2.0)', ['r3']], ['mul(A,A)', ['r4', 'V0']], ['sum(V,None)', ['r5']]],
+    # aliasing: a view taken BEFORE the buffer is written, read afterwards through the view
+    'alias1': [['zerosV(A)', ['V0']], ['V[1:]', ['r0']], ['setV[-1]=S', ['r0', 'S0']], ['setV[0]=S', ['r2', 'S1']],
+               ['mul(A,A)', ['r1', 'r1']]],
+    # aliasing: write through a view that is never read again; the parent buffer is the dependent
+    'alias2': [['copy(A)', ['M0']], ['M[0]', ['r0']], ['setV[0]=S', ['r1', 'S0']], ['mul(A,A)', ['r0', 'r0']]],
+    'alias3': [['copy(A)', ['M0']], ['M.T', ['r0']], ['setM[0]=V', ['r1', 'V0']], ['dot(M,V)', ['r0', 'V1']]],
     'tan1': [['tan(A)', ['V0']], ['mul(A,A)', ['r0', 'V1']], ['sum(V,None)', ['r1']]],
 }
 
